@@ -9,6 +9,7 @@ import json, os, re
 import vlib, starkgen
 from vlib import log
 
+PROVER = ("prover-ood", "prover-lde", "prover-comp")
 ALGEBRAIC = ("InconsistentOodConstraintEvaluations", "FriVerificationFailed")
 
 
@@ -93,6 +94,8 @@ def run(tier, seed, stmts, wd, name="vm"):
             return j, vlib.tlc_validate("Trace_VerifierX", "Trace_VerifierX_%d" % j[2], j[1], tag="Trace_VerifierX_" + os.path.basename(j[1]), timeout=3300, xmx="3g")
         return j, vlib.tlc_validate("Trace_Verifier", "Trace_Verifier", j[1], tag="Trace_Verifier_" + os.path.basename(j[1]), timeout=3300, xmx="3g")
 
+    byid_ext = {sc["id"]: sc["ext"] for sc in scs}
+    cheat = {sc["id"]: bool(sc.get("comp_cheat") or sc.get("lde_cheat") or sc.get("corrupt") or sc.get("aux_corrupt")) for sc in scs}
     lines, rejected, states, trans, accepted = [], [], 0, 0, 0
     for j, rt in vlib.parallel(validate, [j for j in jobs if os.path.getsize(j[1]) > 0], max_workers=16):
         states += rt.distinct
@@ -110,10 +113,46 @@ def run(tier, seed, stmts, wd, name="vm"):
         if not last:
             raise vlib.ToolError("Trace_Verifier: rejected event %d without its evaluation line" % sid)
         rejected.append(last[-1])
+    # binding test of the prover stage: one honest accepted event with one cell of the recorded input trace changed (and, separately,
+    # one opened trace value / one opened composition value changed) must be rejected at the stage that owns the value
+    bind = {}
+    okids = {x[0] for x in lines if x[1] == "accept" and x[2] == "accept"}
+    src = next((j for j in jobs if j[2] == 1 and os.path.getsize(j[1]) > 0), None)
+    if src is not None:
+        ev = None
+        for ln in open(src[1]):
+            e = json.loads(ln)
+            if e["id"] in okids and e.get("tcols") and not e["cheat"] and e["positions"]:
+                ev = e
+                break
+        if ev is not None:
+            def variant(name, edit):
+                e2 = json.loads(json.dumps(ev))
+                edit(e2)
+                tp = os.path.join(wd, "%s_bind_%s.ndjson" % (name, "x"))
+                tp = tp.replace("_x.", "_%s." % edit.__name__)
+                vlib.write_ndjson(tp, [e2])
+                rt = vlib.tlc_validate("Trace_Verifier", "Trace_Verifier", tp, tag="Trace_Verifier_bind_" + edit.__name__, timeout=600, xmx="2g")
+                m = re.findall(r'<<"VM",\s*(\d+),\s*"([^"]*)"', rt.out)
+                return (not rt.ok) and m and m[-1][1]
+
+            def cell(e):
+                e["tcols"][0][1] = (e["tcols"][0][1] + 1) % 40961
+
+            def comprow(e):
+                e["comp_rows"][0][0] = (e["comp_rows"][0][0] + 1) % 40961
+                # keep the verifier's stages satisfied: the change is outside what they relate only if the DEEP value is adapted too;
+                # here it is not, so the verifier stage `deep` owns it
+            bind = {"tcols-cell": variant(name, cell), "comp-row": variant(name, comprow)}
+            if bind["tcols-cell"] not in ("prover-ood", "prover-lde", "prover-comp"):
+                raise vlib.ToolError("Trace_Verifier: the prover stage does not reject a changed input trace (binding test): %s" % bind)
+            if bind["comp-row"] not in ("deep", "prover-comp"):
+                raise vlib.ToolError("Trace_Verifier: a changed opened composition value is not rejected (binding test): %s" % bind)
     log("[trace] Trace_Verifier / Trace_VerifierX: %d proofs taken apart (%d over the quadratic / cubic extension; %d skipped by the harness), %d evaluated, %d/%d shards accepted, stages %s" % (
         len(scs), sum(1 for sc in scs if sc["ext"] > 1), len(skipped), len(lines), accepted, len(jobs), _hist(lines)))
     return {"scs": scs, "byid": {sc["id"]: sc for sc in scs}, "lines": lines, "rejected": rejected, "states": states, "transitions": trans,
-            "shards": len(jobs), "accepted": accepted, "skipped": skipped}
+            "shards": len(jobs), "accepted": accepted, "skipped": skipped, "binding_test": bind,
+            "prover_stage_judged": sum(1 for x in lines if x[1] == "accept" and x[2] == "accept" and byid_ext.get(x[0]) == 1 and not cheat.get(x[0]))}
 
 
 def _hist(lines):
@@ -138,10 +177,17 @@ def judge(v, res, stages, pid):
         sc = res["byid"].get(sid, {})
         if stage == "shape":
             raise vlib.ToolError("Trace_Verifier: the recorded proof does not have the shape the specification expects (%s)" % describe(sc))
-        mine = (stage in stages) if stages is not None else stage not in ("ood", "coefficients")
+        mine = (stage in stages) if stages is not None else stage not in ("ood", "coefficients") + PROVER
         if not mine:
             continue
-        if verdict == "accept" and stage == "commitment":
+        if verdict == "accept" and stage in PROVER:
+            what = {"prover-ood": "the out-of-domain frame it sends is not the evaluation of the trace polynomials (interpolants of the columns the prover was given) at z and g z",
+                    "prover-lde": "a trace row it opens is not the evaluation of the trace polynomials at the queried point of the LDE domain",
+                    "prover-comp": "at a queried point x the opened composition columns do not add up to the composition of all constraints evaluated on the trace "
+                                   "polynomials at x and g x"}[stage]
+            v.violation("vmodel/prover/%s" % stage,
+                        "an honest run of the prover gives a proof that verify() accepts, but %s (prover stage of Trace_Verifier.tla) (%s)" % (what, describe(sc)), sc)
+        elif verdict == "accept" and stage == "commitment":
             v.violation("vmodel/accepted-without/commitment",
                         "verify() ACCEPTS a proof although for some opened row (trace segment, composition columns or a FRI layer) the verifier performed no "
                         "chain of merges from the row's hash to the commitment (MerkleChain.tla): the value is consumed without being tied to a commitment (%s)" % describe(sc), sc)
